@@ -140,16 +140,17 @@ theorem length_filter_ne (K : List Nat) (next : Nat) (hK : K.Nodup) (hnext : nex
 
 /-- `contract_operator_tensor_ignoring_one_leg` on the tensor delivered by
 `contract_all_but_one_neighbour_block_to_ket` (three-layer blocks) -/
-theorem opTensor_general (ketNode opNode : Node) (next : Nat) (g : Trafo) (bs : List (Leg × Leg))
+theorem opTensor_general (x y zo zi : Leg) (pO q mkO : Nat → Leg) (ketNode opNode : Node) (next : Nat) (g : Trafo)
+    (bs : List (Leg × Leg))
     (hK : ketNode.nbrs.Nodup) (hO : opNode.nbrs.Nodup) (hnext : next ∈ ketNode.nbrs)
     (hperm : opNode.nbrs.Perm (ketNode.nbrs.map g)) :
     contractOperatorTensorIgnoringOneLeg
-        ⟨[Leg.ketNb next, Leg.ketPhys] ++
-          (ketNode.nbrs.filter (· ≠ next)).flatMap (fun n => [Leg.blkOp n, Leg.blkBra n]), bs⟩
-        ketNode (opT opNode) opNode next g =
-      some ⟨[Leg.ketNb next] ++ (ketNode.nbrs.filter (· ≠ next)).map Leg.blkBra ++ [Leg.opNb (g next), Leg.opOut],
-            bs ++ ((ketNode.nbrs.filter (· ≠ next)).map (fun n => (Leg.blkOp n, Leg.opNb (g n)))
-                    ++ [(Leg.ketPhys, Leg.opIn)])⟩ := by
+        ⟨[x, y] ++
+          (ketNode.nbrs.filter (· ≠ next)).flatMap (fun n => [pO n, q n]), bs⟩
+        ketNode (T.fresh (opNode.nbrs.map mkO ++ [zo, zi])) opNode next g =
+      some ⟨[x] ++ (ketNode.nbrs.filter (· ≠ next)).map q ++ [mkO (g next), zo],
+            bs ++ ((ketNode.nbrs.filter (· ≠ next)).map (fun n => (pO n, mkO (g n)))
+                    ++ [(y, zi)])⟩ := by
   have hmemB : ∀ n ∈ ketNode.nbrs, g n ∈ opNode.nbrs := fun n hn =>
     hperm.mem_iff.2 (List.mem_map.2 ⟨n, hn, rfl⟩)
   have hlen := length_filter_ne ketNode.nbrs next hK hnext
@@ -159,19 +160,19 @@ theorem opTensor_general (ketNode opNode : Node) (next : Nat) (g : Trafo) (bs : 
   have hnn : ketNode.nbrs.length - 1 = (ketNode.nbrs.filter (· ≠ next)).length := by omega
   rw [hnn]
   generalize hF : ketNode.nbrs.filter (· ≠ next) = F at *
-  have pa : pick ([Leg.ketNb next, Leg.ketPhys] ++ F.flatMap (fun n => [Leg.blkOp n, Leg.blkBra n]))
-      ((List.range F.length).map (fun k => 2 * k + 2) ++ [1]) = some (F.map Leg.blkOp ++ [Leg.ketPhys]) := by
+  have pa : pick ([x, y] ++ F.flatMap (fun n => [pO n, q n]))
+      ((List.range F.length).map (fun k => 2 * k + 2) ++ [1]) = some (F.map pO ++ [y]) := by
     apply pick_append
-    · have := pick_evens [Leg.ketNb next, Leg.ketPhys] F Leg.blkOp Leg.blkBra []
+    · have := pick_evens [x, y] F pO q []
       simpa using this
     · exact pick_single _ _ _ (by simp)
-  have pb : pick (opT opNode).legs (F.map (fun n => opNode.nbrs.idxOf (g n)) ++ [opNode.nbrs.length + 1])
-      = some (F.map (fun n => Leg.opNb (g n)) ++ [Leg.opIn]) := by
+  have pb : pick (T.fresh (opNode.nbrs.map mkO ++ [zo, zi])).legs (F.map (fun n => opNode.nbrs.idxOf (g n)) ++ [opNode.nbrs.length + 1])
+      = some (F.map (fun n => mkO (g n)) ++ [zi]) := by
     apply pick_append
     · rw [← hF]
-      exact side_pick ketNode.nbrs opNode.nbrs next g hK hO hnext hperm Leg.opNb [Leg.opOut, Leg.opIn]
+      exact side_pick ketNode.nbrs opNode.nbrs next g hK hO hnext hperm mkO [zo, zi]
     · apply pick_single
-      simp [opT, T.fresh]
+      simp [T.fresh]
   have nda : ((List.range F.length).map (fun k => 2 * k + 2) ++ [1]).Nodup := by
     rw [List.nodup_append]
     refine ⟨?_, by simp, ?_⟩
@@ -186,8 +187,8 @@ theorem opTensor_general (ketNode opNode : Node) (next : Nat) (g : Trafo) (bs : 
     exact side_nodup ketNode.nbrs opNode.nbrs next g hK hO hnext hperm _ (by omega)
   rw [tensordot_eq _ _ _ _ _ _ (by simp) nda ndb pa pb]
   have ra : remaining ((List.range F.length).map (fun k => 2 * k + 2) ++ [1]) 0
-      ([Leg.ketNb next, Leg.ketPhys] ++ F.flatMap (fun n => [Leg.blkOp n, Leg.blkBra n]))
-        = Leg.ketNb next :: F.map Leg.blkBra := by
+      ([x, y] ++ F.flatMap (fun n => [pO n, q n]))
+        = x :: F.map q := by
     have h0 : ((List.range F.length).map (fun k => 2 * k + 2) ++ [1]).contains 0 = false := by
       cases hc : ((List.range F.length).map (fun k => 2 * k + 2) ++ [1]).contains 0 with
       | false => rfl
@@ -204,11 +205,11 @@ theorem opTensor_general (ketNode opNode : Node) (next : Nat) (g : Trafo) (bs : 
     · intro i _ hc
       simp only [List.mem_append, List.mem_map, List.mem_range, List.mem_singleton] at hc
       rcases hc with ⟨k, _, hk⟩ | hk <;> omega
-  have rb : remaining (F.map (fun n => opNode.nbrs.idxOf (g n)) ++ [opNode.nbrs.length + 1]) 0 (opT opNode).legs
-      = [Leg.opNb (g next), Leg.opOut] := by
-    simp only [opT, T.fresh]
+  have rb : remaining (F.map (fun n => opNode.nbrs.idxOf (g n)) ++ [opNode.nbrs.length + 1]) 0 (T.fresh (opNode.nbrs.map mkO ++ [zo, zi])).legs
+      = [mkO (g next), zo] := by
+    simp only [T.fresh]
     rw [remaining_append, ← hF,
-      side_remaining ketNode.nbrs opNode.nbrs next g hK hO hnext hperm Leg.opNb _ (by omega)]
+      side_remaining ketNode.nbrs opNode.nbrs next g hK hO hnext hperm mkO _ (by omega)]
     rw [remaining_keep_drop]
     · simp
     · simp only [Nat.zero_add, List.length_map, List.mem_append, List.mem_map, List.mem_singleton, not_or,
@@ -218,19 +219,20 @@ theorem opTensor_general (ketNode opNode : Node) (next : Nat) (g : Trafo) (bs : 
       omega
     · simp
   rw [ra, rb, List.zip_append (by simp), zip_map_same]
-  simp [opT, T.fresh]
+  simp [T.fresh]
 
 /-- `contract_bra_tensor_ignore_one_leg` on the tensor delivered by
 `contract_operator_tensor_ignoring_one_leg` -/
-theorem braTensor_general (ketNode braNode : Node) (next : Nat) (f : Trafo) (x : Leg) (bs : List (Leg × Leg))
+theorem braTensor_general (x0 v z : Leg) (q mkB : Nat → Leg) (ketNode braNode : Node) (next : Nat) (f : Trafo) (x : Leg)
+    (bs : List (Leg × Leg))
     (hK : ketNode.nbrs.Nodup) (hB : braNode.nbrs.Nodup) (hnext : next ∈ ketNode.nbrs)
     (hperm : braNode.nbrs.Perm (ketNode.nbrs.map f)) :
-    contractBraTensorIgnoreOneLeg (braT braNode) braNode
-        ⟨[Leg.ketNb next] ++ (ketNode.nbrs.filter (· ≠ next)).map Leg.blkBra ++ [x, Leg.opOut], bs⟩
+    contractBraTensorIgnoreOneLeg (T.fresh (braNode.nbrs.map mkB ++ [z])) braNode
+        ⟨[x0] ++ (ketNode.nbrs.filter (· ≠ next)).map q ++ [x, v], bs⟩
         ketNode next f =
-      some ⟨[Leg.ketNb next, x, Leg.braNb (f next)],
-            bs ++ ((ketNode.nbrs.filter (· ≠ next)).map (fun n => (Leg.blkBra n, Leg.braNb (f n)))
-                    ++ [(Leg.opOut, Leg.braPhys)])⟩ := by
+      some ⟨[x0, x, mkB (f next)],
+            bs ++ ((ketNode.nbrs.filter (· ≠ next)).map (fun n => (q n, mkB (f n)))
+                    ++ [(v, z)])⟩ := by
   have hmemB : ∀ n ∈ ketNode.nbrs, f n ∈ braNode.nbrs := fun n hn =>
     hperm.mem_iff.2 (List.mem_map.2 ⟨n, hn, rfl⟩)
   have hlen := length_filter_ne ketNode.nbrs next hK hnext
@@ -241,22 +243,22 @@ theorem braTensor_general (ketNode braNode : Node) (next : Nat) (f : Trafo) (x :
   have hnn2 : ketNode.nbrs.length + 1 = (ketNode.nbrs.filter (· ≠ next)).length + 2 := by omega
   rw [hnn, hnn2]
   generalize hF : ketNode.nbrs.filter (· ≠ next) = F at *
-  have pa : pick ([Leg.ketNb next] ++ F.map Leg.blkBra ++ [x, Leg.opOut])
-      (List.range' 1 F.length ++ [F.length + 2]) = some (F.map Leg.blkBra ++ [Leg.opOut]) := by
+  have pa : pick ([x0] ++ F.map q ++ [x, v])
+      (List.range' 1 F.length ++ [F.length + 2]) = some (F.map q ++ [v]) := by
     apply pick_append
-    · have := pick_range' [Leg.ketNb next] (F.map Leg.blkBra) [x, Leg.opOut]
+    · have := pick_range' [x0] (F.map q) [x, v]
       simpa using this
     · apply pick_single
-      have : F.length + 2 = ([Leg.ketNb next] ++ F.map Leg.blkBra ++ [x]).length := by simp
+      have : F.length + 2 = ([x0] ++ F.map q ++ [x]).length := by simp
       rw [this]
       simp
-  have pb : pick (braT braNode).legs (F.map (fun n => braNode.nbrs.idxOf (f n)) ++ [braNode.nbrs.length])
-      = some (F.map (fun n => Leg.braNb (f n)) ++ [Leg.braPhys]) := by
+  have pb : pick (T.fresh (braNode.nbrs.map mkB ++ [z])).legs (F.map (fun n => braNode.nbrs.idxOf (f n)) ++ [braNode.nbrs.length])
+      = some (F.map (fun n => mkB (f n)) ++ [z]) := by
     apply pick_append
     · rw [← hF]
-      exact side_pick ketNode.nbrs braNode.nbrs next f hK hB hnext hperm Leg.braNb [Leg.braPhys]
+      exact side_pick ketNode.nbrs braNode.nbrs next f hK hB hnext hperm mkB [z]
     · apply pick_single
-      simp [braT, T.fresh]
+      simp [T.fresh]
   have nda : (List.range' 1 F.length ++ [F.length + 2]).Nodup := by
     rw [List.nodup_append]
     refine ⟨List.nodup_range', by simp, ?_⟩
@@ -269,13 +271,13 @@ theorem braTensor_general (ketNode braNode : Node) (next : Nat) (f : Trafo) (x :
     exact side_nodup ketNode.nbrs braNode.nbrs next f hK hB hnext hperm _ (by omega)
   rw [tensordot_eq _ _ _ _ _ _ (by simp) nda ndb pa pb]
   have ra : remaining (List.range' 1 F.length ++ [F.length + 2]) 0
-      ([Leg.ketNb next] ++ F.map Leg.blkBra ++ [x, Leg.opOut]) = [Leg.ketNb next, x] := by
+      ([x0] ++ F.map q ++ [x, v]) = [x0, x] := by
     rw [remaining_append, remaining_append]
-    have h0 : remaining (List.range' 1 F.length ++ [F.length + 2]) 0 [Leg.ketNb next] = [Leg.ketNb next] := by
+    have h0 : remaining (List.range' 1 F.length ++ [F.length + 2]) 0 [x0] = [x0] := by
       apply remaining_one_keep
       simp only [List.mem_append, List.mem_range'_1, List.mem_singleton]
       omega
-    have h1 : remaining (List.range' 1 F.length ++ [F.length + 2]) (0 + [Leg.ketNb next].length) (F.map Leg.blkBra)
+    have h1 : remaining (List.range' 1 F.length ++ [F.length + 2]) (0 + [x0].length) (F.map q)
         = [] := by
       apply remaining_all
       intro i hi
@@ -283,7 +285,7 @@ theorem braTensor_general (ketNode braNode : Node) (next : Nat) (f : Trafo) (x :
       simp only [List.mem_append, List.mem_range'_1, List.mem_singleton, List.length_cons, List.length_nil]
       left; omega
     have h2 : remaining (List.range' 1 F.length ++ [F.length + 2])
-        (0 + ([Leg.ketNb next] ++ F.map Leg.blkBra).length) [x, Leg.opOut] = [x] := by
+        (0 + ([x0] ++ F.map q).length) [x, v] = [x] := by
       apply remaining_keep_drop
       · simp only [List.mem_append, List.mem_range'_1, List.mem_singleton, List.length_append, List.length_cons,
           List.length_nil, List.length_map]
@@ -293,27 +295,35 @@ theorem braTensor_general (ketNode braNode : Node) (next : Nat) (f : Trafo) (x :
         omega
     rw [h0, h1, h2]
     simp
-  have rb : remaining (F.map (fun n => braNode.nbrs.idxOf (f n)) ++ [braNode.nbrs.length]) 0 (braT braNode).legs
-      = [Leg.braNb (f next)] := by
-    simp only [braT, T.fresh]
+  have rb : remaining (F.map (fun n => braNode.nbrs.idxOf (f n)) ++ [braNode.nbrs.length]) 0 (T.fresh (braNode.nbrs.map mkB ++ [z])).legs
+      = [mkB (f next)] := by
+    simp only [T.fresh]
     rw [remaining_append, ← hF,
-      side_remaining ketNode.nbrs braNode.nbrs next f hK hB hnext hperm Leg.braNb _ (by omega)]
+      side_remaining ketNode.nbrs braNode.nbrs next f hK hB hnext hperm mkB _ (by omega)]
     rw [remaining_one_drop _ _ _ (by simp)]
     simp
   rw [ra, rb, List.zip_append (by simp), zip_map_same]
-  simp [braT, T.fresh]
+  simp [T.fresh]
 
-/-- `contract_leaf` (state, operator and bra nodes are leaves below `p`, `p'`, `p''`) -/
+/-- `contract_leaf` (state, operator and bra nodes are leaves below `p`, `p'`, `p''`), arbitrary labels -/
+theorem opContractLeaf_general (p p' p'' : Nat) (a y o zo zi b z : Leg) :
+    opContractLeaf ⟨some p, []⟩ (T.fresh [a, y]) ⟨some p', []⟩ (T.fresh [o, zo, zi])
+        ⟨some p'', []⟩ (T.fresh [b, z]) =
+      some ⟨[a, o, b], [(zo, z), (y, zi)]⟩ := by
+  simp only [opContractLeaf, nodeOperatorOutputLeg, nodeStatePhysLeg, nodeOperatorInputLeg, Node.nn,
+    Node.nparents, T.fresh]
+  rw [tensordot_one _ _ _ _ zo z (by simp) (by simp)]
+  simp only [List.nil_append]
+  rw [tensordot_one _ _ _ _ y zi (by simp) (by simp)]
+  simp
+
 theorem opContractLeaf_eq (p p' p'' : Nat) :
     opContractLeaf ⟨some p, []⟩ (ketT ⟨some p, []⟩) ⟨some p', []⟩ (opT ⟨some p', []⟩)
         ⟨some p'', []⟩ (braT ⟨some p'', []⟩) =
       some ⟨[Leg.ketNb p, Leg.opNb p', Leg.braNb p''],
             [(Leg.opOut, Leg.braPhys), (Leg.ketPhys, Leg.opIn)]⟩ := by
-  simp only [opContractLeaf, nodeOperatorOutputLeg, nodeStatePhysLeg, nodeOperatorInputLeg, Node.nn,
-    Node.nparents, ketT, braT, opT, T.fresh, Node.nbrs]
-  rw [tensordot_one _ _ _ _ Leg.opOut Leg.braPhys (by simp) (by simp)]
-  simp only [Option.toList_some, List.append_nil, List.map_cons, List.map_nil, List.cons_append, List.nil_append]
-  rw [tensordot_one _ _ _ _ Leg.ketPhys Leg.opIn (by simp) (by simp)]
-  simp
+  have := opContractLeaf_general p p' p'' (Leg.ketNb p) Leg.ketPhys (Leg.opNb p') Leg.opOut Leg.opIn
+    (Leg.braNb p'') Leg.braPhys
+  simpa [ketT, opT, braT, T.fresh, Node.nbrs] using this
 
 end Ptn.C04
